@@ -31,7 +31,7 @@ def c11_program(draw):
     for i in range(draw(st.integers(0, 3))):
         parent = draw(st.sampled_from([x for x in insts if x["depth"] < 4]))
         insts.append({"path": f"sub{i}.mac", "parent": parent["path"], "depth": parent["depth"] + 1})
-    fault = draw(st.sampled_from([None] * 8 + ["invisible", "dup-def", "dup-export"]))
+    fault = draw(st.sampled_from([None] * 8 + ["invisible", "dup-def", "dup-export", "dup-export-nested"]))
     exported = {}     # name -> instance path
     nconst = 0
     for inst in insts:
@@ -64,10 +64,9 @@ def c11_program(draw):
                 block = [{"k": "label", "name": name, "export": exp}, {"k": "insn", "mn": "nop", "ops": []}]
             else:
                 block = [{"k": "assign", "name": name, "e": ("num", d["value"]), "export": exp}]
-            if d["how"] == "extern-before":
-                block = [{"k": "extern", "names": [name]}] + block
-            elif d["how"] == "extern-after":
-                block = block + [{"k": "extern", "names": [name]}]
+            if d["how"] in ("extern-before", "extern-after"):
+                # separate blocks: the permutation below decides which comes first and what stands between them
+                stmts.append([{"k": "extern", "names": [name]}])
             stmts.append(block)
         for _ in range(draw(st.integers(1, 6))):
             k = draw(st.sampled_from(["use", "use", "use", "local", "filler"]))
@@ -97,7 +96,7 @@ def c11_program(draw):
                 stmts.append([{"k": "insn", "mn": "nop", "ops": []}])
         stmts = draw(st.permutations(stmts))
         # local blocks reuse the same numbers: separate them by ordinary-label scopes where needed
-        flat, seen_locals = [], set()
+        flat, seen_locals, cuts = [], set(), [0]
         for block in stmts:
             ln = [s_["name"] for s_ in block if s_["k"] == "local"]
             if ln and ln[0] in seen_locals:
@@ -107,17 +106,23 @@ def c11_program(draw):
                     seen_locals = set()
             seen_locals.update(ln)
             flat += block
+            cuts.append(len(flat))
         if inst["extern_all"]:
             pos = {"before": 0, "after": len(flat), "middle": len(flat) // 2}[inst["extern_all"]]
             # never between a local label and its use
             flat.insert(pos, {"k": "extern", "names": "all"})
         inst["stmts"] = flat
+        inst["cuts"] = cuts
         files[inst["path"]] = flat
     # includes: put an include statement into the parent at a drawn position (not inside a local pair: position 0 or end)
     for inst in insts:
         if inst["parent"]:
             body = files[inst["parent"]]
-            body.insert(draw(st.sampled_from([0, len(body)])), {"k": "include", "path": inst["path"]})
+            parent = [x for x in insts if x["path"] == inst["parent"]][0]
+            # between two blocks of the parent (never inside a local-label pair); later inserts shift earlier cut points
+            cut = draw(st.sampled_from(parent["cuts"]))
+            body.insert(cut, {"k": "include", "path": inst["path"]})
+            parent["cuts"] = [c if c < cut else c + 1 for c in parent["cuts"]] + [cut]
     mains = [x["path"] for x in insts if x["parent"] is None]
     if fault == "invisible":
         # a reference to a name that is private to another instance (or defined nowhere)
@@ -146,6 +151,18 @@ def c11_program(draw):
                     files[inst["path"]] += [{"k": "assign", "name": name, "e": ("num", 9), "export": True}]
             else:
                 fault = None
+        else:
+            fault = None
+    elif fault == "dup-export-nested":
+        # an included file exports a name its includer exports too (the include may stand between '.extern x' and 'x:')
+        pairs = [(x, c) for x in insts for c in insts if c["parent"] == x["path"] and any(exported.get(n) == x["path"] for n in x["defs"])]
+        if pairs:
+            x, c = draw(st.sampled_from(pairs))
+            name = draw(st.sampled_from(sorted(n for n in x["defs"] if exported.get(n) == x["path"])))
+            if name in c["defs"]:
+                files[c["path"]].append({"k": "extern", "names": [name]})
+            else:
+                files[c["path"]] += [{"k": "assign", "name": name, "e": ("num", 11), "export": True}]
         else:
             fault = None
     if draw(st.booleans()):
